@@ -134,6 +134,14 @@ def _judge_once(ctx, n, edges, after_edit=False):
             def similar(self, a, b):
                 return base_cmp(a, b)
         cmp = _Model().similar
+    elif kind == 6 and n <= 12:
+        # a similarity that itself groups something (the syllables of the two calls) with the same function: re-entrant use
+        inner = _events(3, ctx.rng)
+
+        def cmp(a, b):
+            r = base_cmp(a, b)
+            G.group_sound_events(inner, lambda x, y: True)
+            return r
     ctx.mon("comparison_callable_kinds")
     try:
         seqs = G.group_sound_events(tuple(evs) if (n + len(edges)) % 4 == 1 else evs, cmp)
@@ -271,7 +279,37 @@ def run(ctx):
         edges = sorted(edges)
         ctx.case(("random", shape), {"n": n, "edges": edges}, nontrivial=_nontrivial(n, edges))
         judge(ctx, n, edges)
+        if ctx.every({"n": n, "edges": edges}, 5) and n <= 40:
+            judge_after_failed_call(ctx, n, edges, fail_after=rng.choice([0, 1, 2, 5]))
     run_large(ctx)
+
+
+def judge_after_failed_call(ctx, n, edges, fail_after=1):
+    """A call whose comparison function raises part-way (an event without geometry reaches ``have_temporal_overlap``) is
+    caught by the caller; the next, ordinary call is judged like any other."""
+    from soundevent.geometry import operations as G
+
+    evs = _events(max(n, 3), ctx.rng)
+    seen = [0]
+
+    def failing(a, b):
+        seen[0] += 1
+        if seen[0] > fail_after + 1:
+            raise RuntimeError("comparison failed (an event without geometry)")
+        return True
+
+    try:
+        G.group_sound_events(evs, failing)
+    except RuntimeError:
+        pass
+    except Exception:
+        pass
+    ctx.mon("after_failed_call")
+    n0 = len(ctx.violations)
+    _judge_once(ctx, n, edges)
+    for v in ctx.violations[n0:]:
+        v["key"] = v["key"] + ":after_a_failed_call"
+        v["spec"] = dict(v.get("spec") or {}, after_failed_call=True)
 
 
 def _gen_edges(shape, n):
@@ -308,4 +346,8 @@ def replay(ctx, w):
     s = w["spec"]
     ctx.case("replay", s)
     edges = _gen_edges(s["edges"].split(":", 1)[1], s["n"]) if isinstance(s["edges"], str) else [tuple(e) for e in s["edges"]]
+    if s.get("after_failed_call"):
+        for fa in (0, 1, 2):
+            judge_after_failed_call(ctx, s["n"], edges, fail_after=fa)
+        return
     judge(ctx, s["n"], edges)
